@@ -184,8 +184,8 @@ var shimPlan = map[string][]string{
 	"pkg/server":  {"os", "os/exec", "net", "time", "log", "os/signal", "syscall", "math/rand"},
 }
 
-var yieldPlan = map[string]bool{"pkg/server": true}
-var t4Plan = map[string]bool{}
+var yieldPlan = map[string]bool{"pkg/server": true, "pkg/exec": true, "pkg/runtime": true}
+var t4Plan = map[string]bool{"pkg/exec": true, "pkg/runtime": true, "pkg/value": true, "pkg/common": true, "pkg/server": true, "pkg/io": true, "stdlib/json": true, "stdlib/file": true}
 
 // ---------------------------------------------------------------- check
 
